@@ -14,6 +14,7 @@ import mir_eval
 from mir_eval import alignment, beat, chord, key, pattern, segment, tempo
 
 PROPERTY_ID = "C01"
+SCALE = (3, 2)   # budget multiplier (quick, thorough) applied to the n=(...) of every generated sub-property
 LEVEL = "exploration"
 RULE = ("for each of the 13 tasks: valid (reference, estimate) pairs with degenerate shapes over-represented (empty side, single element, "
         "duplicates, clusters, disjoint, identical, one-label / all-unique segmentations, estimates spanning more or less than the reference) "
